@@ -26,11 +26,13 @@ What the LEXER accepts (probed with LEX; it restricts which spellings get RUN ro
 
 id classes (the alphabetic prefix of the id; the driver groups mismatches by them):
   ni int, canonical spelling, no separators      ns int with separators        np / nq prefixed decimal `010_..` (no seps / seps)
+  nu int, radix > 10, digits in upper / mixed case
   fl float positional   fs float with separators (integer part not starting with 0)
   fz float with separators whose integer part starts with `0` (KNOWN: rejected by the real code)
   fb plain decimal integer above i32::MAX (-> float)   fe sign-less exponent form   fx other forms (`1.`, `.5`, excess digits)
   ce char list via escape_chars   cu via escape_chars_u   cr via escape_chars_raw   cx every char as \\u{hex}
-  bn byte list numeric   bq byte list quoted ASCII   bm byte list quoted with multi-byte characters
+  bn byte list numeric (decimal entries)   br numeric, entries with separators / radix prefixes, digits 0-9 only
+  bx numeric, an entry has a letter digit (KNOWN: rejected by the real code)   bq byte list quoted ASCII   bm byte list quoted with multi-byte characters
   sy symbol   sc symbol whose name ends with `:` (KNOWN: trimmed by the real code)
 """
 import decimal
@@ -303,6 +305,11 @@ def _gen_ints(o, rng, tier):
                 if valid_seps(radix, n, seps):
                     o.both('ns', 'number', spell_number(radix, n, seps), term_int(n), p_run)
                     break
+            if radix > 10 and rng.random() < 0.2 and any(c.isalpha() for c in spell_nat(radix, n)):
+                # digits above 9 written in upper / mixed case
+                t = spell_number(radix, n, _rand_seps(rng, nd) if rng.random() < 0.5 else [])
+                u = t.upper() if rng.random() < 0.5 else ''.join(c.upper() if rng.random() < 0.5 else c for c in t)
+                o.both('nu', 'number', u, term_int(n), p_run)
             if radix == 10:
                 # the prefixed decimal form 010_digits: every separator placement is fine there
                 o.both('np', 'number', spell_prefixed(10, n, []), term_int(n), p_run)
@@ -456,15 +463,16 @@ def _numeric_rows(o, rng, q, bs, p_run):
     exp = term_bytes(bs)
     o.lit('bn', 'bytelist', t, exp)
     # two quotes lex as the EMPTY byte list followed by other tokens; an empty body between >= 2 quotes does not lex
-    if ((q >= 3 and bs) or (q == 2 and not bs)) and (p_run >= 1.0 or rng.random() < p_run):
+    if q >= 3 and bs and (p_run >= 1.0 or rng.random() < p_run):
         o.run('bn', 'bytelist', t, exp)
 
 
 def _gen_bytelists(o, rng, tier):
     # numeric form
-    _numeric_rows(o, rng, 2, [], 1.0)           # ''
-    o.lit('bn', 'bytelist', "''''", term_bytes([]))
-    o.lit('bn', 'bytelist', "''''''", term_bytes([]))
+    # the empty vector: `''` is spell_bytes_quoted([]) (LIT and RUN, class bq below); numeric forms `''''`, `''''''`
+    # (LIT only: an empty body between >= 2 quotes is not a token)
+    _numeric_rows(o, rng, 2, [], 0)
+    _numeric_rows(o, rng, 3, [], 0)
     for b in range(256):
         _numeric_rows(o, rng, 2, [b], 0)
         _numeric_rows(o, rng, 3, [b], 1.0 if tier != 'quick' else 0.3)
@@ -479,6 +487,40 @@ def _gen_bytelists(o, rng, tier):
     for _ in range(300 if tier == 'quick' else 2500):
         bs = [rng.choice(BYTE_SUBSET) if rng.random() < 0.3 else rng.randrange(256) for _ in range(rng.randrange(3, 41))]
         _numeric_rows(o, rng, rng.choice([2, 2, 3, 3, 4, 5]), bs, 0.6)
+    # entries spelled in other ways (spell_bytes_numeric_with): separators, the prefixed radix forms. Class br: all
+    # digits are 0-9. Class bx: a digit is a letter (radix > 10) -- KNOWN: the byte-list parser only lets numeric
+    # characters and `_` through, `'''016_ff'''` is rejected.
+    for t, bs in (("'''011_a'''", [10]), ("'''016_ff'''", [255]), ("''036_z''", [35]), ("'''016_1F 7'''", [31, 7])):
+        o.lit('bx', 'bytelist', t, term_bytes(bs))
+        if t.startswith("'''"):
+            o.run('bx', 'bytelist', t, term_bytes(bs))
+    for t, bs in (("'''016_10'''", [16]), ("'''02_101 08_17'''", [5, 15]), ("'''1_0'''", [10]), ("'''2_5_5_'''", [255]), ("'''0255'''", [255])):
+        o.both('br', 'bytelist', t, term_bytes(bs), 1.0)
+    nx = 0
+    for _ in range(150 if tier == 'quick' else 1000):
+        bs = [rng.choice(BYTE_SUBSET) if rng.random() < 0.3 else rng.randrange(256) for _ in range(rng.randrange(1, 7))]
+        sp = []
+        for x in bs:
+            r = rng.random()
+            radix = 10 if r < 0.3 else (rng.randrange(2, 11) if r < 0.8 else rng.randrange(11, 37))
+            nd = len(spell_nat(radix, x))
+            seps = _rand_seps(rng, nd) if rng.random() < 0.4 else []
+            if radix == 10 and rng.random() < 0.7:
+                sp.append(spell_number(10, x, seps if valid_seps(10, x, seps) else []))
+            else:
+                sp.append(spell_prefixed(radix, x, seps))
+        letters = any(c.isalpha() for t in sp for c in t)
+        if letters:
+            nx += 1
+            if nx > (20 if tier == 'quick' else 60):
+                continue
+        it = iter(sp)
+        q = rng.choice([2, 3, 3, 4])
+        t = spell_bytes_numeric_with(lambda _b: next(it), q, bs)
+        cls = 'bx' if letters else 'br'
+        o.lit(cls, 'bytelist', t, term_bytes(bs))
+        if q >= 3 and rng.random() < 0.6:
+            o.run(cls, 'bytelist', t, term_bytes(bs))
     # quoted ASCII form
     o.both('bq', 'bytelist', spell_bytes_quoted([]), term_bytes([]), 1.0)
     for b in range(128):
